@@ -1,5 +1,6 @@
 // C13: factory operators, exhaustive over d=2..6 and all admissible indices.
 #include "bind.hpp"
+#include <SQuIDS/const.h>
 using namespace vf;
 
 static void check_matrix(const char* fac, int d, int k, const SU_vector& v, const Mat& want, bool nontrivial) {
@@ -84,6 +85,26 @@ int main(int argc, char** argv) {
           try { SU_vector v = which ? SU_vector::NegProjector(d, k) : SU_vector::PosProjector(d, k); check_matrix(nm, d, k, v, ref::eye(d), true); }
           catch (const std::exception&) { count("evaluations"); count("index_d_rejected"); }
         }
+      }
+    }
+    // every result is an object of its own: what a caller does to one (in place, or by consuming it as a temporary in an
+    // expression) must not show in another result or in what a later call returns
+    {
+      auto fac = [&](int which, int k) { return which == 0 ? SU_vector::Identity(d) : which == 1 ? SU_vector::Projector(d, k) : which == 2 ? SU_vector::Generator(d, k) : which == 3 ? SU_vector::PosProjector(d, k) : SU_vector::NegProjector(d, k); };
+      const char* FN[] = {"Identity", "Projector", "Generator", "PosProjector", "NegProjector"};
+      for (int which = 0; which < 5; which++) for (int k : {0, d - 1}) {
+        count("evaluations");
+        SU_vector r1 = fac(which, k), r2 = fac(which, k);
+        std::vector<double> want = comps(r2);
+        bool ok = &r1[0] != &r2[0];
+        r1 *= 0.5; r1[1] = 7.25; r1 += r2;                                   // in-place use of one result
+        { SU_vector s = fac(which, k) * (1.0 / 3); (void)s; }                // a result consumed as a temporary
+        { SU_vector s = fac(which, k) - r1; s[0] = -4; }
+        { SU_vector t = fac(which, k); t.RotateToB1(squids::Const()); t[d] = 3; SU_vector u = std::move(t) + r1; (void)u; }
+        if (!(comps(r2) == want)) ok = false;                                // the other live result is untouched
+        SU_vector r3 = fac(which, k);
+        if (!(comps(r3) == want)) ok = false;                                // and a later call returns the same operator
+        if (!ok) violation(std::string(FN[which]) + ":results-share-state", J().str("factory", FN[which]).i("d", d).i("index", k).arr("later_call", comps(r3)).arr("first_call", want).done());
       }
     }
     // algebraic consequences through the reference product of the *returned* operators
